@@ -421,6 +421,11 @@ class Gen:
             phi = round(rng.uniform(-2 * PI, 2 * PI), 6)
             q += [a, b, ce]
             fa, fb = a["name"] + ".f", b["name"] + ".f"
+            if rng.random() < 0.35:
+                # the photon is prepared inside its envelope first (combined, polarization gate): the
+                # envelope's product state is then stored polarization first
+                q.append({"do": "env.combine", "env": a["name"], "client": c})
+                q.append(op({"t": "P." + rng.choice(["H", "X", "RY"]), "theta": th}, rng.choice(["state", "env"]), [a["name"] + ".p"], env=a["name"]))
             q.append(op({"t": "X.BS", "eta": round(PI / 4, 9)}, "ce", [fa, fb], ce=ce["name"]))
             q.append(op({"t": "F.PhaseShift", "phi": phi}, "state", [fa]))
             q.append(op({"t": "X.BS", "eta": round(PI / 4, 9)}, "ce", [fa, fb], ce=ce["name"]))
